@@ -22,6 +22,8 @@ type Hooks struct {
 	Call func(x *Exec, call *ast.CallExpr, lhs []ast.Expr, s St) (out []St, handled bool)
 	// Cond may decide a condition before the generic refinement does.
 	Cond func(x *Exec, cond ast.Expr, truth bool, s St) (out []St, handled bool)
+	// PostCond post-processes the states refined by the generic condition rules.
+	PostCond func(x *Exec, cond ast.Expr, truth bool, outs []St) []St
 	// Stmt is consulted for nodes the base does not model (go, send, expressions...).
 	Stmt func(x *Exec, n ast.Node, s St) (out []St, handled bool)
 	// Assign sees every assignment after the base handled it.
@@ -516,6 +518,9 @@ func relLookup(s St, l, op, r string) (bool, bool) {
 			return !v, true
 		}
 	case "==":
+		if v, ok := eq(); ok {
+			return v, true
+		}
 		if v, ok := get(l, "<", r); ok && v {
 			return false, true
 		}
@@ -749,6 +754,14 @@ func (b *Base) Refine(x *Exec, cond ast.Expr, truth bool, s St) []St {
 			return out
 		}
 	}
+	out := b.refine0(x, cond, truth, s)
+	if b.H.PostCond != nil {
+		out = b.H.PostCond(x, cond, truth, out)
+	}
+	return out
+}
+
+func (b *Base) refine0(x *Exec, cond ast.Expr, truth bool, s St) []St {
 	info := x.Fn.Info
 	cond = ast.Unparen(cond)
 	if tv, ok := info.Types[cond]; ok && tv.Value != nil {
@@ -1036,7 +1049,35 @@ func (b *Base) AssignValue(x *Exec, lhs ast.Expr, rhs ast.Expr, s St) St {
 			}
 		}
 	}
+	// integer copy "t = u": remember the equality
+	eqTerm := ""
+	if rhs != nil && cv == "" {
+		if bt, ok := typ.Underlying().(*types.Basic); ok && bt.Info()&types.IsInteger != 0 {
+			if id, ok := ast.Unparen(rhs).(*ast.Ident); ok {
+				if rt, ok := b.Term(x, id, s); ok && rt != t && !strings.Contains(rt, t) {
+					eqTerm = rt
+				}
+			}
+		}
+	}
 	s = b.Invalidate(s, t)
+	if eqTerm != "" {
+		a, z := t, eqTerm
+		if z < a {
+			a, z = z, a
+		}
+		if out := b.setAtom(s, "p:"+a+"=="+z, true); len(out) == 1 {
+			s = out[0]
+		}
+		// what is known about the source holds for the copy
+		if isLocalTerm(eqTerm) && isLocalTerm(t) {
+			for k, v := range s.m {
+				if strings.HasPrefix(k, "p:") && !strings.Contains(k, "==") && mentionsTerm(k, eqTerm) && !mentionsTerm(k, t) {
+					s = s.Set(substTerm(k, eqTerm, t), v)
+				}
+			}
+		}
+	}
 	if nv != "" {
 		s = s.Set("n:"+t, nv)
 	}
@@ -1604,4 +1645,73 @@ func (b *Base) ForkErr(x *Exec, lhs []ast.Expr, errIdx int, s St, onOK, onErr fu
 		bad = onErr(bad)
 	}
 	return []St{ok, bad}
+}
+
+
+// isLocalTerm reports whether t is a plain local variable term (name@pos).
+func isLocalTerm(t string) bool {
+	i := strings.IndexByte(t, '@')
+	if i <= 0 {
+		return false
+	}
+	for _, c := range t[i+1:] {
+		if c < '0' || c > '9' {
+			return false
+		}
+	}
+	for _, c := range t[:i] {
+		if !(c == '_' || c >= '0' && c <= '9' || c >= 'a' && c <= 'z' || c >= 'A' && c <= 'Z') {
+			return false
+		}
+	}
+	return true
+}
+
+func termAt(k, t string, i int) bool {
+	if i > 0 {
+		c := k[i-1]
+		if c == '_' || c >= '0' && c <= '9' || c >= 'a' && c <= 'z' || c >= 'A' && c <= 'Z' {
+			return false
+		}
+	}
+	j := i + len(t)
+	if j < len(k) {
+		c := k[j]
+		if c >= '0' && c <= '9' || c == '.' {
+			return false
+		}
+	}
+	return true
+}
+
+// mentionsTerm reports whether key k contains the local term t as a whole term.
+func mentionsTerm(k, t string) bool {
+	for off := 0; ; {
+		i := strings.Index(k[off:], t)
+		if i < 0 {
+			return false
+		}
+		if termAt(k, t, off+i) {
+			return true
+		}
+		off += i + 1
+	}
+}
+
+func substTerm(k, from, to string) string {
+	var sb strings.Builder
+	for off := 0; ; {
+		i := strings.Index(k[off:], from)
+		if i < 0 {
+			sb.WriteString(k[off:])
+			return sb.String()
+		}
+		sb.WriteString(k[off : off+i])
+		if termAt(k, from, off+i) {
+			sb.WriteString(to)
+		} else {
+			sb.WriteString(from)
+		}
+		off += i + len(from)
+	}
 }
